@@ -1,1 +1,424 @@
 // Kani harnesses compiled inside rs-matter/src/utils/storage/writebuf.rs (module `verif_kani`).
+
+mod c17 {
+    use super::*;
+
+    /// Largest buffer considered (the slice length is symbolic in `0..=N`).
+    const N: usize = 24;
+    /// Largest source slice considered by the slice-taking primitives.
+    const S: usize = 9;
+
+    /// Representation invariant: `start..end` is the written window, `end..buf_size` the free
+    /// room, `buf_size` the logical end of the backing slice.
+    fn inv(wb: &WriteBuf) -> bool {
+        wb.start <= wb.end && wb.end <= wb.buf_size && wb.buf_size <= wb.buf.len()
+    }
+
+    fn any_wb(arr: &mut [u8; N]) -> WriteBuf<'_> {
+        let len: usize = kani::any();
+        kani::assume(len <= N);
+        let start: usize = kani::any();
+        let end: usize = kani::any();
+        let buf_size: usize = kani::any();
+        kani::assume(start <= end && end <= buf_size && buf_size <= len);
+        WriteBuf {
+            buf: &mut arr[..len],
+            buf_size,
+            start,
+            end,
+        }
+    }
+
+    /// Contract shared by every fixed-width `le_*` writer.
+    fn append_scalar_contract(which: u8) {
+        let mut arr: [u8; N] = kani::any();
+        let before = arr;
+        let mut wb = any_wb(&mut arr);
+        let (len, bs, st, en) = (wb.buf.len(), wb.buf_size, wb.start, wb.end);
+        let v: u64 = kani::any();
+
+        let (k, r) = match which {
+            1 => (1usize, wb.le_u8(v as u8)),
+            2 => (2, wb.le_u16(v as u16)),
+            4 => (4, wb.le_u32(v as u32)),
+            8 => (8, wb.le_u64(v)),
+            11 => (1, wb.le_i8(v as i8)),
+            12 => (2, wb.le_i16(v as i16)),
+            14 => (4, wb.le_i32(v as i32)),
+            _ => (8, wb.le_i64(v as i64)),
+        };
+
+        // little-endian: byte j of the field carries bits 8j..8j+7 of the value
+        let le = v.to_le_bytes();
+        // there is room for k more bytes before the logical end
+        let fits = bs - en >= k;
+
+        kani::assert(r.is_ok() == fits, "C17.writebuf.scalar.ok_iff_fits");
+        if let Err(e) = &r {
+            kani::assert(e.code() == ErrorCode::NoSpace, "C17.writebuf.scalar.err_is_nospace");
+        }
+        kani::assert(
+            wb.start == st && wb.buf_size == bs && wb.buf.len() == len,
+            "C17.writebuf.scalar.frame_cursors"
+        );
+        kani::assert(wb.end == if fits { en + k } else { en }, "C17.writebuf.scalar.tail_advances_by_width");
+        kani::assert(inv(&wb), "C17.writebuf.scalar.invariant_kept");
+        let i: usize = kani::any();
+        kani::assume(i < len);
+        if fits && i >= en && i < en + k {
+            kani::assert(wb.buf[i] == le[i - en], "C17.writebuf.scalar.bytes_little_endian");
+        } else {
+            // a refusal writes nothing, a success writes nothing outside `en..en+k`
+            kani::assert(wb.buf[i] == before[i], "C17.writebuf.scalar.frame_bytes");
+        }
+
+        kani::cover!(fits && en > st && bs < len, "fits, non-empty window, shrunk buffer");
+        kani::cover!(k == 1 || (!fits && bs > en), "partial room only (impossible for a 1-byte field)");
+        kani::cover!(!fits && bs == en, "full");
+        kani::cover!(fits && bs - en == k, "exact fit");
+    }
+
+    // TIER: quick
+    // KIND: bounded (buffer length <= 24 bytes; the code is loop-free)
+    #[kani::proof]
+    fn c17_writebuf_le_u8() {
+        append_scalar_contract(1);
+    }
+
+    // TIER: quick
+    // KIND: bounded (buffer length <= 24 bytes; the code is loop-free)
+    #[kani::proof]
+    fn c17_writebuf_le_u16() {
+        append_scalar_contract(2);
+    }
+
+    // TIER: quick
+    // KIND: bounded (buffer length <= 24 bytes; the code is loop-free)
+    #[kani::proof]
+    fn c17_writebuf_le_u32() {
+        append_scalar_contract(4);
+    }
+
+    // TIER: quick
+    // KIND: bounded (buffer length <= 24 bytes; the code is loop-free)
+    #[kani::proof]
+    fn c17_writebuf_le_u64() {
+        append_scalar_contract(8);
+    }
+
+    // TIER: quick
+    // KIND: bounded (buffer length <= 24 bytes; the code is loop-free)
+    #[kani::proof]
+    fn c17_writebuf_le_signed() {
+        let w: u8 = kani::any();
+        kani::assume(w == 11 || w == 12 || w == 14 || w == 18);
+        append_scalar_contract(w);
+    }
+
+    // TIER: quick
+    // KIND: bounded (buffer length <= 24 bytes, source slice <= 9 bytes; the code is loop-free)
+    #[kani::proof]
+    fn c17_writebuf_append_slice() {
+        let mut arr: [u8; N] = kani::any();
+        let before = arr;
+        let mut wb = any_wb(&mut arr);
+        let (len, bs, st, en) = (wb.buf.len(), wb.buf_size, wb.start, wb.end);
+        let src_arr: [u8; S] = kani::any();
+        let k: usize = kani::any();
+        kani::assume(k <= S);
+        let src = &src_arr[..k];
+
+        let r = if kani::any() { wb.append(src) } else { wb.copy_from_slice(src) };
+
+        let fits = bs - en >= k;
+        kani::assert(r.is_ok() == fits, "C17.writebuf.append.ok_iff_fits");
+        if let Err(e) = &r {
+            kani::assert(e.code() == ErrorCode::NoSpace, "C17.writebuf.append.err_is_nospace");
+        }
+        kani::assert(
+            wb.start == st && wb.buf_size == bs && wb.buf.len() == len,
+            "C17.writebuf.append.frame_cursors"
+        );
+        kani::assert(wb.end == if fits { en + k } else { en }, "C17.writebuf.append.tail_advances_by_len");
+        kani::assert(inv(&wb), "C17.writebuf.append.invariant_kept");
+        let i: usize = kani::any();
+        kani::assume(i < len);
+        if fits && i >= en && i < en + k {
+            kani::assert(wb.buf[i] == src_arr[i - en], "C17.writebuf.append.bytes_copied");
+        } else {
+            kani::assert(wb.buf[i] == before[i], "C17.writebuf.append.frame_bytes");
+        }
+
+        kani::cover!(fits && k == S, "longest source fits");
+        kani::cover!(fits && k == 0, "empty source");
+        kani::cover!(!fits && bs > en, "partial room only");
+    }
+
+    // TIER: quick
+    // KIND: bounded (buffer length <= 24 bytes, source slice <= 9 bytes; the code is loop-free)
+    #[kani::proof]
+    fn c17_writebuf_prepend() {
+        let mut arr: [u8; N] = kani::any();
+        let before = arr;
+        let mut wb = any_wb(&mut arr);
+        let (len, bs, st, en) = (wb.buf.len(), wb.buf_size, wb.start, wb.end);
+        let src_arr: [u8; S] = kani::any();
+        let k: usize = kani::any();
+        kani::assume(k <= S);
+
+        let r = wb.prepend(&src_arr[..k]);
+
+        // the reserved head room `0..start` holds k more bytes
+        let fits = k <= st;
+        kani::assert(r.is_ok() == fits, "C17.writebuf.prepend.ok_iff_headroom");
+        if let Err(e) = &r {
+            kani::assert(e.code() == ErrorCode::NoSpace, "C17.writebuf.prepend.err_is_nospace");
+        }
+        kani::assert(
+            wb.end == en && wb.buf_size == bs && wb.buf.len() == len,
+            "C17.writebuf.prepend.frame_cursors"
+        );
+        kani::assert(wb.start == if fits { st - k } else { st }, "C17.writebuf.prepend.start_moves_back_by_len");
+        kani::assert(inv(&wb), "C17.writebuf.prepend.invariant_kept");
+        let i: usize = kani::any();
+        kani::assume(i < len);
+        if fits && i >= st - k && i < st {
+            kani::assert(wb.buf[i] == src_arr[i - (st - k)], "C17.writebuf.prepend.bytes_copied");
+        } else {
+            kani::assert(wb.buf[i] == before[i], "C17.writebuf.prepend.frame_bytes");
+        }
+
+        kani::cover!(fits && k == st && k > 0, "uses all head room");
+        kani::cover!(!fits, "not enough head room");
+    }
+
+    // TIER: quick
+    // KIND: bounded (buffer length <= 24 bytes; the code is loop-free; `reserve` argument is any usize)
+    #[kani::proof]
+    fn c17_writebuf_reserve() {
+        let mut arr: [u8; N] = kani::any();
+        let before = arr;
+        let mut wb = any_wb(&mut arr);
+        let (len, bs, st, en) = (wb.buf.len(), wb.buf_size, wb.start, wb.end);
+        let n: usize = kani::any();
+
+        let r = wb.reserve(n);
+
+        // head room can only be reserved on a pristine buffer, and at most its size
+        let pristine = st == 0 && en == 0 && bs == len;
+        kani::assert(r.is_ok() == (pristine && n <= len), "C17.writebuf.reserve.ok_iff_pristine_and_fits");
+        if let Err(e) = &r {
+            kani::assert(
+                e.code() == if pristine { ErrorCode::NoSpace } else { ErrorCode::Invalid },
+                "C17.writebuf.reserve.err_code"
+            );
+            kani::assert(wb.start == st && wb.end == en, "C17.writebuf.reserve.refusal_changes_nothing");
+        } else {
+            kani::assert(wb.start == n && wb.end == n, "C17.writebuf.reserve.window_empty_at_n");
+        }
+        kani::assert(wb.buf_size == bs && wb.buf.len() == len, "C17.writebuf.reserve.frame_cursors");
+        kani::assert(inv(&wb), "C17.writebuf.reserve.invariant_kept");
+        let i: usize = kani::any();
+        kani::assume(i < len);
+        kani::assert(wb.buf[i] == before[i], "C17.writebuf.reserve.frame_bytes");
+
+        kani::cover!(r.is_ok() && n == len && len > 0, "reserve everything");
+        kani::cover!(pristine && n > len, "too much");
+        kani::cover!(!pristine, "not pristine");
+    }
+
+    // TIER: quick
+    // KIND: bounded (buffer length <= 24 bytes; the code is loop-free)
+    #[kani::proof]
+    fn c17_writebuf_shrink_expand() {
+        let mut arr: [u8; N] = kani::any();
+        let before = arr;
+        let mut wb = any_wb(&mut arr);
+        let (len, bs, st, en) = (wb.buf.len(), wb.buf_size, wb.start, wb.end);
+        let n: usize = kani::any();
+
+        if kani::any() {
+            // PRECONDITION (see report, observation O-1): `with` is a length of something that
+            // exists in memory (<= isize::MAX); `shrink` computes `end + with` unchecked.
+            kani::assume(n <= isize::MAX as usize);
+            let r = wb.shrink(n);
+            let ok = bs - en >= n;
+            kani::assert(r.is_ok() == ok, "C17.writebuf.shrink.ok_iff_free_room");
+            kani::assert(wb.buf_size == if ok { bs - n } else { bs }, "C17.writebuf.shrink.logical_end");
+            kani::cover!(ok && n > 0, "shrunk");
+            kani::cover!(!ok, "shrink refused");
+        } else {
+            let r = wb.expand(n);
+            let ok = len - bs >= n;
+            kani::assert(r.is_ok() == ok, "C17.writebuf.expand.ok_iff_backing_room");
+            kani::assert(wb.buf_size == if ok { bs + n } else { bs }, "C17.writebuf.expand.logical_end");
+            kani::cover!(ok && n > 0, "expanded");
+            kani::cover!(!ok, "expand refused");
+        }
+        kani::assert(
+            wb.start == st && wb.end == en && wb.buf.len() == len,
+            "C17.writebuf.resize.frame_cursors"
+        );
+        kani::assert(inv(&wb), "C17.writebuf.resize.invariant_kept");
+        let i: usize = kani::any();
+        kani::assume(i < len);
+        kani::assert(wb.buf[i] == before[i], "C17.writebuf.resize.frame_bytes");
+    }
+
+    // TIER: quick
+    // KIND: bounded (buffer length <= 24 bytes; the code is loop-free)
+    #[kani::proof]
+    fn c17_writebuf_views_and_tail() {
+        let mut arr: [u8; N] = kani::any();
+        let before = arr;
+        let mut wb = any_wb(&mut arr);
+        let (len, bs, st, en) = (wb.buf.len(), wb.buf_size, wb.start, wb.end);
+        let i: usize = kani::any();
+
+        kani::assert(wb.get_start() == st && wb.get_tail() == en, "C17.writebuf.view.cursors");
+        {
+            let s = wb.as_slice();
+            kani::assert(s.len() == en - st, "C17.writebuf.view.as_slice_len");
+            if i < s.len() {
+                kani::assert(s[i] == before[st + i], "C17.writebuf.view.as_slice_is_window");
+            }
+        }
+        {
+            let s = wb.as_mut_slice();
+            kani::assert(s.len() == en - st, "C17.writebuf.view.as_mut_slice_len");
+            if i < s.len() {
+                kani::assert(s[i] == before[st + i], "C17.writebuf.view.as_mut_slice_is_window");
+            }
+        }
+        {
+            let s = wb.empty_as_mut_slice();
+            kani::assert(s.len() == bs - en, "C17.writebuf.view.free_room_len");
+            if i < s.len() {
+                kani::assert(s[i] == before[en + i], "C17.writebuf.view.free_room_is_after_tail");
+            }
+        }
+
+        // tail handling: going back to an anchor inside the window / forward inside the free room
+        let t: usize = kani::any();
+        if kani::any() {
+            kani::assume(st <= t && t <= en); // PRECONDITION: an anchor obtained from `get_tail` earlier
+            wb.rewind_tail_to(t);
+            kani::assert(wb.end == t, "C17.writebuf.tail.rewind_sets_tail");
+        } else {
+            kani::assume(t <= bs - en); // PRECONDITION: bytes already produced into `empty_as_mut_slice`
+            wb.forward_tail_by(t);
+            kani::assert(wb.end == en + t, "C17.writebuf.tail.forward_adds");
+        }
+        kani::assert(
+            wb.start == st && wb.buf_size == bs && wb.buf.len() == len,
+            "C17.writebuf.tail.frame_cursors"
+        );
+        kani::assert(inv(&wb), "C17.writebuf.tail.invariant_kept");
+        // and the views stay in range afterwards
+        kani::assert(wb.as_slice().len() == wb.end - st, "C17.writebuf.tail.view_after");
+
+        wb.reset();
+        kani::assert(
+            wb.start == 0 && wb.end == 0 && wb.buf_size == len && wb.buf.len() == len,
+            "C17.writebuf.reset.pristine"
+        );
+        let j: usize = kani::any();
+        kani::assume(j < len);
+        kani::assert(wb.buf[j] == before[j], "C17.writebuf.view.frame_bytes");
+
+        kani::cover!(en > st && bs > en && len > bs, "all regions non-empty");
+        kani::cover!(en == st, "empty window");
+    }
+
+    // TIER: quick
+    // KIND: bounded (buffer length <= 24 bytes; the code is loop-free)
+    #[kani::proof]
+    fn c17_writebuf_append_with_buf_and_split() {
+        let mut arr: [u8; N] = kani::any();
+        let before = arr;
+        let mut wb = any_wb(&mut arr);
+        let (len, bs, st, en) = (wb.buf.len(), wb.buf_size, wb.start, wb.end);
+        let k: usize = kani::any();
+        let fill: u8 = kani::any();
+        let fail: bool = kani::any();
+
+        // a producer that is handed exactly the free room and reports how much of it it used
+        let r = wb.append_with_buf(|room| {
+            kani::assert(room.len() == bs - en, "C17.writebuf.with_buf.room_is_free_room");
+            if fail {
+                return Err(ErrorCode::NoSpace.into());
+            }
+            kani::assume(k <= room.len()); // PRECONDITION on the producer
+            if k > 0 {
+                room[k - 1] = fill;
+            }
+            Ok(k)
+        });
+        kani::assert(r.is_ok() == !fail, "C17.writebuf.with_buf.propagates_producer_result");
+        kani::assert(wb.end == if fail { en } else { en + k }, "C17.writebuf.with_buf.tail_advances_by_reported");
+        kani::assert(
+            wb.start == st && wb.buf_size == bs && wb.buf.len() == len,
+            "C17.writebuf.with_buf.frame_cursors"
+        );
+        kani::assert(inv(&wb), "C17.writebuf.with_buf.invariant_kept");
+        let i: usize = kani::any();
+        if i < len {
+            if !fail && k > 0 && i == en + k - 1 {
+                kani::assert(wb.buf[i] == fill, "C17.writebuf.with_buf.producer_bytes_kept");
+            } else {
+                kani::assert(wb.buf[i] == before[i], "C17.writebuf.with_buf.frame_bytes");
+            }
+        }
+
+        // split: head is everything up to the tail, the rest is a pristine buffer
+        let end_now = wb.end;
+        let (head, rest) = wb.split();
+        kani::assert(head.len() == end_now, "C17.writebuf.split.head_is_up_to_tail");
+        kani::assert(
+            rest.start == 0 && rest.end == 0 && rest.buf_size == len - end_now && rest.buf.len() == len - end_now,
+            "C17.writebuf.split.rest_is_pristine"
+        );
+
+        kani::cover!(!fail && k > 0 && k == bs - en, "producer fills the room");
+        kani::cover!(fail, "producer fails");
+    }
+
+    // TIER: quick
+    // KIND: bounded (buffer lengths <= 24 bytes; the code is loop-free)
+    #[kani::proof]
+    fn c17_writebuf_load() {
+        let mut arr: [u8; N] = kani::any();
+        let before = arr;
+        let mut wb = any_wb(&mut arr);
+        let (len, bs) = (wb.buf.len(), wb.buf_size);
+        let (st, en) = (wb.start, wb.end);
+        let mut arr2: [u8; N] = kani::any();
+        let src_bytes = arr2;
+        let src = any_wb(&mut arr2);
+        let (sst, sen) = (src.start, src.end);
+
+        let r = wb.load(&src);
+
+        let fits = sen <= bs;
+        kani::assert(r.is_ok() == fits, "C17.writebuf.load.ok_iff_fits");
+        kani::assert(inv(&wb), "C17.writebuf.load.invariant_kept");
+        kani::assert(wb.buf_size == bs && wb.buf.len() == len, "C17.writebuf.load.frame_size");
+        let i: usize = kani::any();
+        if fits {
+            kani::assert(wb.start == sst && wb.end == sen, "C17.writebuf.load.cursors_copied");
+            if i < sen {
+                kani::assert(wb.buf[i] == src_bytes[i], "C17.writebuf.load.bytes_copied");
+            } else if i < len {
+                kani::assert(wb.buf[i] == before[i], "C17.writebuf.load.frame_bytes");
+            }
+        } else {
+            kani::assert(wb.start == st && wb.end == en, "C17.writebuf.load.refusal_keeps_cursors");
+            if i < len {
+                kani::assert(wb.buf[i] == before[i], "C17.writebuf.load.refusal_keeps_bytes");
+            }
+        }
+
+        kani::cover!(fits && sen > 0, "loaded");
+        kani::cover!(!fits, "too large");
+    }
+}
